@@ -73,6 +73,19 @@ func genLitK(t *rapid.T, rsize int, maxKind int) string {
 	}
 }
 
+// genNoFxp is set by the HDL case generator while it draws a source (generators run sequentially): the HDL
+// of the fxp opcodes is read from /tmp/fxpcode/*.v, which does not exist here.
+var genNoFxp bool
+
+// dynOps: names the dynamic-instruction families accept for a register size (fixed point, fxp).
+func dynOps(rsize int) []string {
+	f := rsize / 4
+	if genNoFxp {
+		return []string{fmt.Sprintf("addfps%df%d", rsize, f), fmt.Sprintf("multfps%df%d", rsize, f), fmt.Sprintf("addfps%df%d", rsize, f-1)}
+	}
+	return []string{fmt.Sprintf("addfps%df%d", rsize, f), fmt.Sprintf("multfps%df%d", rsize, f), fmt.Sprintf("multfxps%df%d", rsize, f-1), fmt.Sprintf("addfxps%df%d", rsize, f-1)}
+}
+
 type secSpec struct {
 	name      string
 	nin, nout int
@@ -114,6 +127,9 @@ func genTextBody(t *rapid.T, b *strings.Builder, s secSpec, rsize int, macros []
 		if len(macros) > 0 && !afterLabel {
 			kinds = append(kinds, "macro", "macro")
 		}
+		// dynamically created instructions (pkg/procbuilder dynamical_*.go): the assembler registers them in the
+		// order in which its walk over the sections map meets them
+		kinds = append(kinds, "dyn", "dyn")
 		afterLabel = false
 		switch rapid.SampledFrom(kinds).Draw(t, "ik") {
 		case "rset":
@@ -145,6 +161,8 @@ func genTextBody(t *rapid.T, b *strings.Builder, s secSpec, rsize int, macros []
 			fmt.Fprintf(b, "        mov ram:[%s], %s\n", reg(t, nreg, "ra"), reg(t, nreg, "rb"))
 		case "macro":
 			fmt.Fprintf(b, "        %s\n", rapid.SampledFrom(macros).Draw(t, "mac"))
+		case "dyn":
+			fmt.Fprintf(b, "        %s %s, %s\n", rapid.SampledFrom(dynOps(rsize)).Draw(t, "dynop"), reg(t, nreg, "ra"), reg(t, nreg, "rb"))
 		}
 	}
 	for k := 0; k < s.nout; k++ {
@@ -176,7 +194,7 @@ func genMacros(t *rapid.T, b *strings.Builder, rsize int) []string {
 }
 
 // genSectionsPart: code/data sections, CPs running them and the IO network between the CPs.
-func genSectionsPart(t *rapid.T, b *strings.Builder, rsize int, macros []string, cpPool []string, globalIomode bool) {
+func genSectionsPart(t *rapid.T, b *strings.Builder, rsize int, macros []string, cpPool []string, globalIomode bool, cluster bool) {
 	nsec := rapid.IntRange(1, 5).Draw(t, "nsec")
 	names := rapid.Permutation(secNames).Draw(t, "secnames")
 	iomodes := []string{"", " iomode:sync", " iomode:async"}
@@ -225,6 +243,10 @@ func genSectionsPart(t *rapid.T, b *strings.Builder, rsize int, macros []string,
 		sec  secSpec
 	}
 	var cps []cpSpec
+	devIds := map[string]int{}
+	if cluster && ncp < 2 {
+		ncp = 2
+	}
 	for i := 0; i < ncp; i++ {
 		s := secs[rapid.IntRange(0, len(secs)-1).Draw(t, "cpsec")]
 		c := cpSpec{name: cpPool[i], sec: s}
@@ -238,6 +260,24 @@ func genSectionsPart(t *rapid.T, b *strings.Builder, rsize int, macros []string,
 		}
 		if rapid.IntRange(0, 4).Draw(t, "execmode") == 0 {
 			line += ", execmode:ha"
+		}
+		if cluster {
+			// clustered source: every CP names the device (edge machine) it lives on (clusterchecker.go)
+			// (explicit contiguous devid in order of first use: without it a second CP on a device whose automatic id
+			// is not 0 is refused, and ids with holes are refused too — clean rejections, not interesting here)
+			dev := rapid.SampledFrom([]string{"deva", "devb", "devc"}).Draw(t, "device")
+			if i == 1 && len(devIds) == 1 {
+				for _, d := range []string{"deva", "devb", "devc"} { // the second CP opens a second device
+					if _, used := devIds[d]; !used {
+						dev = d
+						break
+					}
+				}
+			}
+			if _, ok := devIds[dev]; !ok {
+				devIds[dev] = len(devIds)
+			}
+			line += fmt.Sprintf(", device:%s, devid:%d", dev, devIds[dev])
 		}
 		fmt.Fprintf(b, "%s\n", line)
 	}
@@ -314,7 +354,7 @@ func genFragmentsPart(t *rapid.T, b *strings.Builder, rsize int, macros []string
 		pickDef := func(l string) int { return defd[rapid.IntRange(0, len(defd)-1).Draw(t, l)] }
 		for k, n := 0, rapid.IntRange(1, 5).Draw(t, "flen"); k < n; k++ {
 			a := rapid.IntRange(0, 3).Draw(t, "fa")
-			kinds := []string{"inc", "add", "mult", "cpy", "rset", "clr"}
+			kinds := []string{"inc", "add", "mult", "cpy", "rset", "clr", "dyn"}
 			if f.template {
 				kinds = append(kinds, "tparam", "tparam")
 			}
@@ -332,6 +372,10 @@ func genFragmentsPart(t *rapid.T, b *strings.Builder, rsize int, macros []string
 			case "mult":
 				a = pickDef("fd")
 				body = append(body, fmt.Sprintf("mult r%d, r%d", a, pickDef("fe")))
+				continue
+			case "dyn":
+				a = pickDef("fd")
+				body = append(body, fmt.Sprintf("%s r%d, r%d", rapid.SampledFrom(dynOps(rsize)).Draw(t, "fdyn"), a, pickDef("fe")))
 				continue
 			case "cpy":
 				body = append(body, fmt.Sprintf("cpy r%d, r%d", a, pickDef("fe")))
@@ -457,16 +501,23 @@ func genBasmSource(t *rapid.T) (string, []string) {
 	}
 	macros := genMacros(t, &b, rsize)
 	pool := rapid.Permutation(cpNames).Draw(t, "cpnames")
-	switch rapid.SampledFrom([]string{"sections", "sections", "fragments", "fragments", "mixed"}).Draw(t, "family") {
+	cluster := false
+	switch rapid.SampledFrom([]string{"sections", "sections", "fragments", "fragments", "mixed", "cluster"}).Draw(t, "family") {
 	case "sections":
-		genSectionsPart(t, &b, rsize, macros, pool, giomode != "")
+		genSectionsPart(t, &b, rsize, macros, pool, giomode != "", false)
+	case "cluster":
+		cluster = true
+		genSectionsPart(t, &b, rsize, macros, pool, giomode != "", true)
 	case "fragments":
 		genFragmentsPart(t, &b, rsize, macros, pool)
 	default:
-		genSectionsPart(t, &b, rsize, macros, pool[:5], giomode != "")
+		genSectionsPart(t, &b, rsize, macros, pool[:5], giomode != "", false)
 		genFragmentsPart(t, &b, rsize, macros, pool[5:])
 	}
 	var flags []string
+	if cluster {
+		flags = append(flags, "-co", "cluster.json", "-oprefix", "edge")
+	}
 	if rapid.IntRange(0, 2).Draw(t, "chooser") != 0 {
 		flags = append(flags, "-chooser-min-word-size")
 		if rapid.Bool().Draw(t, "samename") {
